@@ -143,6 +143,7 @@ struct FragEngine : Engine {
         { Rng fg = root.fork("forget"); if (fg.chance(0.15) && !p.steps.empty()) { int n = (int)fg.range(1, 2); for (int i = 0; i < n; ++i) { KV k; size_t pos = fg.below(p.steps.size() + 1);
               if (fg.chance(0.4)) k.set("forget", "all"); else { KV tk(p.truth[fg.below(p.truth.size())]); k.set("forget", "one").set("src", tk.str("src")).set("dst", tk.str("dst")).set("id", tk.num("id")); }
               p.steps.insert(p.steps.begin() + pos, k.line()); faults["fault.application_forgets_streams"]++; } p.cfg.set("forgets", 1); } }
+        p.cfg.set("ctor", root.fork("ctor").chance(0.3) ? 1 : 0);
         for (auto& f : faults) p.cfg.set(f.first, (int64_t)f.second);
         return p;
     }
@@ -153,7 +154,7 @@ struct FragEngine : Engine {
         for (auto& kv : p.cfg.v) if (kv.first.compare(0, 6, "fault.") == 0) st.ctr[kv.first] += strtoull(kv.second.c_str(), 0, 10);
         std::map<int, Bytes> truth_payload; std::map<int, int> truth_proto;
         for (auto& t : p.truth) { KV k(t); truth_payload[(int)k.num("dg")] = k.bytes("payload"); truth_proto[(int)k.num("dg")] = (int)k.num("proto"); }
-        std::map<std::string, RefStream> ref; Tins::IPv4Reassembler reasm;
+        std::map<std::string, RefStream> ref; Tins::IPv4Reassembler reasm_default, reasm_explicit(Tins::IPv4Reassembler::NONE); Tins::IPv4Reassembler& reasm = p.cfg.num("ctor", 0) ? reasm_explicit : reasm_default;   /* both constructors */
         uint64_t sig = 0xC08; int idx = -1; bool any_frag = false, any_fault = false; int prev_dg = -1; int64_t last_t = 0;
         for (auto& sl : p.steps) {
             ++idx; KV k(sl);
